@@ -496,7 +496,12 @@ def sround(a):
         return a
     if is_num(a):
         return round(fr(a))
-    raise EngineError('round() of symbolic value not modelled')
+    # symbolic real: round half to even.  f = floor(a + 1/2) is the nearest integer (ties go up); a tie (a + 1/2 integral) with f odd
+    # goes down to the even neighbour instead
+    half = to_real(a) + Q(1, 2)
+    f = z3.ToInt(half)
+    tie = z3.ToReal(f) == half
+    return _simp(z3.If(z3.And(tie, f % 2 != 0), f - 1, f))
 
 
 # ------------------------------------------------------------------------------------------- comparisons
